@@ -40,3 +40,63 @@ Fixpoint decode_stream2 (ec : hdr -> io -> io) (limit : Z) (fuel : nat) (h : hdr
       | Fail e s1 => SFail e nsos work s1
       end
   end.
+
+(* ------------------------------------------------------------------ the C's caching, modelled *)
+(* Fixed at SOF (get_sof) and never written again by a marker routine: process flags, precision, dimensions,
+   component count and each component's id / sampling factors / quantisation-table selector.  get_sos only
+   rewrites the Huffman/arithmetic table selectors of the scan's components. *)
+Definition cgeom (c : comp) : Z * Z * Z * Z := (c_id c, c_h c, c_v c, c_tq c).
+Definition geom (h : hdr) : bool * bool * bool * Z * Z * Z * Z * list (Z * Z * Z * Z) :=
+  let f := h_frame h in
+  (f_prog f, f_lossless f, f_arith f, f_prec f, f_height f, f_width f, f_nc f, map cgeom (f_comps f)).
+Definition hdr_of (r : step) : hdr := match r with Continue h | ReachedSOS h | ReachedEOI h => h end.
+
+(* latch_quant_tables with its per-component memo ("if (compptr->quant_table != NULL) continue;") *)
+Fixpoint latch_loop2 (cur : list Z) (ci : Z) (h : hdr) (latched : list Z) : M (list Z) :=
+  match cur with
+  | [] => ret latched
+  | cidx :: t =>
+      log ci bound_cur_comp_info ;;;
+      if existsb (Z.eqb cidx) latched then latch_loop2 t (ci + 1) h latched else
+      let q := c_tq (comp_at h cidx) in
+      if (q <? 0) || (q >=? L_NUM_QUANT_TBLS) then fail E_NO_QUANT_TABLE else
+      log q bound_quant_tbl_ptrs ;;;
+      match nthd (q_tbls h) q None with
+      | None => fail E_NO_QUANT_TABLE
+      | Some _ => latch_loop2 t (ci + 1) h (cidx :: latched)
+      end
+  end.
+
+(* consume_markers as the C does it: initial_setup ONCE (first SOS, result cached in su), per scan:
+   per_scan_setup with the cached values + latch_quant_tables; later SOS need has_multiple_scans *)
+Fixpoint decode_stream3 (ec : hdr -> io -> io) (limit : Z) (fuel : nat) (h : hdr) (su : option setup) (latched : list Z)
+                        (nsos work amax : Z) (s : io) : sres :=
+  match fuel with
+  | O => SFail E_OUT_OF_FUEL nsos work s
+  | S k =>
+      match read_markers (marker_fuel s) h s with
+      | Done (ReachedSOS h') s1 =>
+          if nsos + 1 >? limit then SLimit nsos work amax s1 else
+          match (match su with
+                 | Some x => if su_multi x then Done x s1 else Fail E_EOI_EXPECTED s1
+                 | None => initial_setup h' s1
+                 end) with
+          | Done su' s2 =>
+              match (si <- per_scan_setup h' su' ;;
+                     l <- (if f_lossless (h_frame h') then ret latched else latch_loop2 (s_cur (h_scan h')) 0 h' latched) ;;
+                     ret (si, l)) s2 with
+              | Done (si, l') s3 =>
+                  decode_stream3 ec limit k h' (Some su') l' (nsos + 1) (work + scan_units si * unit_steps)
+                                 (Z.max amax (frame_area h')) (ec h' s3)
+              | Susp => SSusp
+              | Fail e s3 => SFail e nsos work s3
+              end
+          | Susp => SSusp
+          | Fail e s2 => SFail e nsos work s2
+          end
+      | Done (ReachedEOI h') s1 => SDone h' nsos work amax s1
+      | Done (Continue _) s1 => SFail E_OUT_OF_FUEL nsos work s1
+      | Susp => SSusp
+      | Fail e s1 => SFail e nsos work s1
+      end
+  end.
